@@ -84,7 +84,7 @@ def lean_stage(prop, thorough=False, consts_needed=()):
                 broken_ties = set(lines.values())
         for name in lines.values():
             const = name[len("tie_"):]
-            if consts_needed and const not in consts_needed:
+            if const not in (consts_needed or ()):
                 continue
             res["obligations"].append("ConstsTie." + name)
             if name in broken_ties:
@@ -92,7 +92,11 @@ def lean_stage(prop, thorough=False, consts_needed=()):
             else:
                 res["discharged"].append("ConstsTie." + name)
     # audit of the property theorems (outside the lock: read-only)
-    thms = property_theorems(prop)
+    all_thms = property_theorems(prop)
+    # the property theorems proper are named after the property (Cxx, Cxx_*); everything else in the file
+    # is a supporting lemma: audited in the same way, reported separately, not counted as an obligation
+    thms = all_thms
+    res["supporting_lemmas"] = []
     if thms:
         audit = os.path.join(LEAN, ".lake", "audit_%s.lean" % prop)
         with open(audit, "w") as f:
@@ -104,7 +108,8 @@ def lean_stage(prop, thorough=False, consts_needed=()):
             raise HarnessError("audit failed:\n" + out[-3000:])
         flat = re.sub(r"\s+", " ", out)
         for t in thms:
-            res["obligations"].append(t)
+            is_property = re.match(r"C\d\d", t.split(".")[-1]) is not None
+            (res["obligations"] if is_property else res["supporting_lemmas"]).append(t)
             m = re.search(r"'%s' depends on axioms: \[([^\]]*)\]" % re.escape(t), flat)
             if m:
                 ax = [a.strip() for a in m.group(1).split(",") if a.strip()]
@@ -114,7 +119,8 @@ def lean_stage(prop, thorough=False, consts_needed=()):
                 raise HarnessError("audit output has no line for %s:\n%s" % (t, out[-2000:]))
             res["axioms"][t] = ax
             if set(ax) <= ALLOWED_AXIOMS:
-                res["discharged"].append(t)
+                if is_property:
+                    res["discharged"].append(t)
             else:
                 raise HarnessError("theorem %s depends on non-standard axioms %s" % (t, ax))
     hits = forbidden_tokens()
